@@ -41,6 +41,11 @@ FAMILY = [
     "c = 1\nx = 0\nwhile c == 1:\n    c = Bernoulli(1/2)\n    x = 1\n    x = x + 1\nend\n",
     # three-valued guard variable, inequality guard
     "c = 0\nx = 0\nwhile c < 2:\n    c = c + 1 {1/2} c\n    x = x + 1\nend\n",
+    # inequality guards that normalise to a disjunction of equalities
+    "c = 0\nx = 0\nwhile c < 2:\n    c = DiscreteUniform(0, 3)\n    x = x + c\nend\n",
+    "c = 3\nx = 0\nwhile c >= 1:\n    c = DiscreteUniform(0, 3)\n    x = x + 1\nend\n",
+    "types\n    c : Finite(0, 1, 2, 3)\nend\nc = 0\nd = 0\nx = 0\nwhile c < 3:\n    if c == 2:\n        c = 3 {1/4} 0 {1/4} 2\n    elif c == 1:\n        c = 1\n    else:\n        c = 2 {1/2} 1\n    end\n    x = x + 1\nend\n",
+    "c = 1\nd = 1\nx = 0\nwhile c + d > 0:\n    c = Bernoulli(1/2)\n    d = Bernoulli(1/2)\n    x = x + c\nend\n",
     "c = 2\nx = 1\nwhile !(c == 0):\n    c = DiscreteUniform(0, 2)\n    x = x + c\nend\n",
     # exit value depends on the exit branch
     "c = 1\nx = 0\nwhile c == 1:\n    c = 0 {1/4} 1 {1/2} 2\n    if c == 2:\n        x = 5\n    else:\n        x = x + 1\n    end\nend\n",
